@@ -93,6 +93,52 @@ CHECKS = {
         design_ref="DESIGN.md section 5, C20",
         note=NOTE_COMMON + "Pandas target exists only for Polars-backed tables (finding D56).",
     ),
+    "C11": dict(
+        technique="Lean 4 proof: invariant / refinement theorems over a hand-written model of Cache and the verb front end, tied to the code by "
+                  "program-level correspondence of every Cache field after every verb",
+        text="Pdt/Props/C11.lean: finishVerb_cache_eq_fromAst (for every single-input verb, incl. the rewritten AST when check_subquery inserts a "
+             "SubqueryMarker: metadata accumulated verb by verb = Cache.from_ast of the whole pipeline), mutate_columns (surviving names in order, then the "
+             "new names; an overwritten column moves to the end), row_verbs_keep_columns, alias_columns, union_columns, dictOf_keys_nodup. The oracle is the "
+             "statement itself on the real code: columns(), iteration, len, in, dir and Cache.from_ast vs the accumulated cache after every verb, and "
+             "columns() vs the exported frame's names on Polars and SQLite, on random programs and on scenario programs (summarize overwriting a grouping "
+             "column, hidden-name collision through a forced subquery). Partial: that the backends' select lists equal the metadata is established on the "
+             "real code (oracle + correspondence), not yet as a Lean refinement theorem over the compile models.",
+        design_ref="DESIGN.md section 5, C11",
+        note=NOTE_COMMON + "Defects D5 and D17 found here were repaired in /repo (fix: commits).",
+    ),
+    "C16": dict(
+        technique="Lean 4 proof: theorems about alias / lineage / scope over the Cache model, tied by front-end correspondence; data-level clauses by oracle",
+        text="Pdt/Props/C16.lean: alias_keep_refs (alias(keep_col_refs=True) changes nothing but the lineage), alias_lineage and "
+             "alias_self_join_accepted (a plain alias derives from itself only, so the join's same-origin test passes; self_join_rejected otherwise), "
+             "alias_scope (fresh identities, same metadata and order, grouping carried over), origin_ref_rejected / own_ref_resolves. Oracle on the real code "
+             "for the final table of every program: alias, alias(keep), repeated alias, collect, collect(keep_col_refs=False) leave names, order, data and "
+             "grouping unchanged; origin references are rejected after a plain alias and map to the same data after alias(keep)/collect; self-joins.",
+        design_ref="DESIGN.md section 5, C16",
+        note=NOTE_COMMON + "collect() of grouped tables was repaired in /repo (D22).",
+    ),
+    "C09": dict(
+        technique="Lean 4 proof: scope-preservation and resolution-by-identity theorems over the Cache / preprocess_arg model, tied by front-end "
+                  "correspondence; data-level clause by probe-column oracle",
+        text="Pdt/Props/C09.lean: scope_unchanged / ref_survives (rename, select, drop, filter, arrange, slice_head, group_by, ungroup, alias(keep) keep every "
+             "UUID in scope with its metadata), ref_survives_mutate (overwriting mutate), ref_survives_join_left, tcol_resolves_by_identity (resolution of t.x "
+             "does not look at current names), cname_resolves_by_name, cname_unknown_rejected, plus C16.origin_ref_rejected. Oracle: probe columns on the real "
+             "code (every reference from an intermediate table used on the final table equals the column it denoted; derived[ref].name; C.name; out-of-scope "
+             "references raise ColumnNotFoundError), cross-backend equality of the probes, scenario programs with hidden-name collisions across joins and subqueries.",
+        design_ref="DESIGN.md section 5, C09",
+        note=NOTE_COMMON,
+    ),
+    "C14": dict(
+        technique="Lean 4 proof: rejection-rule theorems over the model of expression typing and verb checks, tied by front-end correspondence on valid "
+                  "programs and on a rejection stream with one planted offence per program",
+        text="Pdt/Props/C14.lean: no_overload_is_DataTypeError, arg_error_propagates / list_error_propagates / resolve_*_error_propagates (an offence at any "
+             "depth is the error of the verb argument), case_condition_must_be_bool, nested_agg_window_rejected (arguments and context arguments), "
+             "marker_root_rejected / marker_inside_rejected, summarize_bare_column_rejected, summarize_window_rejected, summarize_group_column_ok, "
+             "peel_outermost_wins. The rejection stream plants ~60 rule x position combinations after random histories on Polars- and SQLite-backed tables, "
+             "checks the exception class and that the input table still exports, and compares the model's outcome. Converse: accepted pipelines export on "
+             "Polars without internal error (known findings by trigger).",
+        design_ref="DESIGN.md section 5, C14",
+        note=NOTE_COMMON + "D29 and D57 (wrong exception class) were repaired in /repo.",
+    ),
 }
 
 NOT_YET = "check not built yet in this revision of /verif (model and theorems planned in DESIGN.md section 5)"
